@@ -23,6 +23,9 @@ def cases(tier, seed, prep=None):
             for k in range(0, 240, stride):
                 out.append({"kind": "sweep", "seed": seed * 7919 + b, "drop_at": k, "who": who,
                             "min_msgs": 1})
+                if k % 9 == 0:
+                    out.append({"kind": "sweep", "seed": seed * 7919 + b, "drop_at": k, "who": who, "min_msgs": 1,
+                                "how": ["blackhole", "server-close"][(k // 9) % 2]})
     # two cuts: second one shortly after the first (during the reconnect / replay)
     nb = 3 if tier == "quick" else 30
     for b in range(nb):
@@ -159,7 +162,8 @@ def run_case(spec):
                      "server_connections": conns, "reconnects": max(0, conns - 2),
                      "delivered": len(drv.a.msgs) + len(drv.b.msgs), "kind_" + spec["kind"]: 1,
                      "notrans_seen": len(MON.notrans), "log_errors_seen": len(MON.errors),
-                     "virtual_seconds_to_complete": int(t_done), "sends_in_closing_window": window_sends[0]},
+                     "virtual_seconds_to_complete": int(t_done), "sends_in_closing_window": window_sends[0],
+                     **{"drop_" + k: v for k, v in drv.drop_kinds.items()}},
         "sets": {"cmds_reissued": sorted({"%s" % c.get("type") for conn in world.server_conns[2:] for c in conn.cmds})},
         "sample": {"spec": spec, "cfg": {k: v for k, v in cfg.items() if not k.startswith("plan")},
                    "drops": drv.drops_done, "connections_at_server": conns,
